@@ -124,6 +124,14 @@ package keeper
 //@        e == zero(types.ValidatorPrice)
 //@        || (old(has(Store_feeds, types.ValidatorPriceListStoreKey(bech32addr(msg.Validator)))) && inPrev(old(vplAt(Store_feeds, bech32addr(msg.Validator))).ValidatorPrices, e))
 //@        || (e.Timestamp == sdkctx(goCtx).BlockTime().Unix() && e.BlockHeight == sdkctx(goCtx).BlockHeight())))
+// C06 / C15: the stored list has one slot per current feed, and a non-empty slot j holds a price FOR FEED j's SIGNAL - a
+// carried-over price sits in the slot of its own signal, wherever that signal is in the list now (CalculatePrices and
+// CheckMissReport read the list by signal: a price in the wrong slot shadows or loses another feed's price)
+//@ ensures err == nil ==> len(vplAt(Store_feeds, bech32addr(msg.Validator)).ValidatorPrices) == len(old(curFeeds(Store_feeds)).Feeds)
+//@ ensures err == nil ==> (forall j :: 0 <= j && j < len(vplAt(Store_feeds, bech32addr(msg.Validator)).ValidatorPrices) ==>
+//@     (let e = vplAt(Store_feeds, bech32addr(msg.Validator)).ValidatorPrices[j] in e == zero(types.ValidatorPrice) || e.SignalID == old(curFeeds(Store_feeds)).Feeds[j].SignalID))
+//@ loop 1: invariant forall j :: 0 <= j && j < len(newValidatorPrices) ==> (newValidatorPrices[j] == zero(types.ValidatorPrice) || newValidatorPrices[j].SignalID == currentFeeds.Feeds[j].SignalID)
+//@ loop 2: invariant forall j :: 0 <= j && j < len(newValidatorPrices) ==> (newValidatorPrices[j] == zero(types.ValidatorPrice) || newValidatorPrices[j].SignalID == currentFeeds.Feeds[j].SignalID)
 //@ loop 0: invariant forall a, b :: 0 <= a && a < b && b < len(currentFeeds.Feeds) ==> currentFeeds.Feeds[a].SignalID != currentFeeds.Feeds[b].SignalID
 //@ loop 0: invariant forall j :: 0 <= j && j < #i ==> has(currentFeedsMap, currentFeeds.Feeds[j].SignalID)
 //@ loop 0: invariant len(currentFeedsMap) == #i
@@ -231,3 +239,10 @@ package keeper
 //@ modifies Store_feeds
 //@ ensures err == nil ==> Store_feeds == store(old(Store_feeds), types.ParamsKey, enc(p)) && p.CurrentFeedsUpdateInterval > 0 && p.PowerStepThreshold > 0 && p.MinInterval > 0 && p.MaxInterval > 0 && ext("LegacyNewDecFromStr#1", p.PriceQuorum) == nil
 //@ ensures err != nil ==> Store_feeds == old(Store_feeds)
+
+// ---- C15: the grace period after a feed-list update is counted from THIS update ------------------------------------------
+// Whenever the current-feed list is (re)written - same signals or not: intervals may have changed - it is stamped with
+// the block time and height of the write; CheckMissReport grants the grace period from that stamp.
+//@ func (k Keeper) SetCurrentFeeds
+//@ modifies Store_feeds
+//@ ensures Store_feeds == store(old(Store_feeds), types.CurrentFeedsStoreKey, enc(types.CurrentFeeds{feeds, ctx.BlockTime().Unix(), ctx.BlockHeight()}))
